@@ -169,6 +169,16 @@ def run(ctx):
     recs = generate(ctx.tier, ctx.seed)
     scs = [scenario(f'C12-{k}', r) for k, r in enumerate(recs)]
     add_event_tags(scs)
+    if ctx.tier == 'thorough':
+        # refinement calls made by the repository's own tests (recorded under wrappers), judged by the same clauses
+        from .. import suite
+        ev = suite.record(ctx)
+        for j, e in enumerate(ev['refine']):
+            if e['a'] != 'Refine':
+                continue
+            e['tags'] = {'step': e['op'], 'pre_cls': e['pre']['cls']}
+            scs.append({'id': f'C12-suite-{j}', 'recipe': {'driver': 'suite', 'test': e.pop('test', '')},
+                        'tags': {'cls': e['pre']['cls'], 'kind': e['pre']['kind'], 'ops': 'suite'}, 'events': [e]})
     ctx.validate('TraceC12', scs)
     _check_harness(ctx)
     ctx.notes['distinct_nontrivial'] = len({json.dumps(r, sort_keys=True) for r in recs if len(r['t'][0]) >= 2})
